@@ -379,7 +379,7 @@ def build():
         engines=[dict(name="tlc", path="/opt/veriftools/tla/tla2tools.jar", serves_properties=sorted(CHECKS),
                       kind_free_text="TLA+ specifications under /verif/spec checked with TLC 1.8 (exhaustive, -simulate, -dump dot, trace validation); python harness binds them to molgri")],
         checks=[CHECKS[p] for p in sorted(CHECKS)],
-        notes="Known findings: /verif/known_findings.json. Fix commits in /repo start with 'fix:' (12, listed in DESIGN.md 11.4). Beyond the twenty claimed properties the specification is bound to the code by growth checks G01-G15 (./check Gxx, evidence under evidence_growth/, DESIGN.md 11.7), binding demonstrations (./check --selftest) and TLAPS proofs (./check --proofs); seeded/ holds the confirmed breaking changes of five rounds (138+) and refactors/ 60 property-preserving ones used to test the checks (DESIGN.md 11.8-11.10).",
+        notes="Known findings: /verif/known_findings.json. Fix commits in /repo start with 'fix:' (12, listed in DESIGN.md 11.4). Beyond the twenty claimed properties the specification is bound to the code by growth checks G01-G15 (./check Gxx, evidence under evidence_growth/, DESIGN.md 11.7), binding demonstrations (./check --selftest) and TLAPS proofs (./check --proofs); seeded/ holds 151 confirmed breaking changes from five rounds of sub-agents and refactors/ 60 property-preserving ones used to test the checks (DESIGN.md 11.8-11.10).",
         not_applicable=na,
     )
     # never write an invalid manifest
